@@ -115,6 +115,12 @@ ASSUMPTIONS = ['the circuits generated for the end-to-end runs use NOT with one 
                'the n-ary types with two (85%) or three to four operands, possibly repeated (harness/subcorr.py)',
                'recorded steps whose replace_subcircuit / remove_gate call raises are replayed through the model (same error '
                'kind) but there is no result state to validate',
+               'whole-run validation: the events of a run are the replace_subcircuit calls that returned normally and whose '
+               'result minimize_subcircuits kept, and the trivial-branch merges whose remove_gate returned, in the order they '
+               'happened; a call that raised is not an event (it worked on a copy that is dropped - if it did change the '
+               'circuit the chain check fails). Runs with more than 40 events, with a state above 60 gates or with a '
+               'non-identity label mapping in a step are not printed as Coq terms and are counted as skipped (histogram '
+               '"whole runs"); runs that raise have no returned circuit and are not validated',
                'a step rejected by the validator on a run whose end-to-end oracle passes is reported as a disagreement for '
                'every cut family (the exception for families not closed under sub-cuts ended with fixes/D30.patch)',
                'the stand-in SAT solver gives up after 5,000,000 propagations of one call (deterministic) and the harness '
@@ -148,7 +154,8 @@ def correspondence(ctx, model_ok):
               'sampled max_subcircuit_size / cut_size / cut_limit, the full k-feasible cut family of the shim enumerator or '
               '(30%) a seeded random valid sub-family in random order, validation on/off; end-to-end run of '
               'minimize_subcircuits through the shim solver with every replace_subcircuit call and every trivial-branch merge '
-              'recorded, replayed through the model and validated; plus pattern operations / cone simulation / don\'t-care '
+              'recorded, replayed through the model and validated, and every run that returns validated end to end (argument '
+              'circuit, ordered events, returned circuit) by the proved validator check_run; plus pattern operations / cone simulation / don\'t-care '
               'tables against the model on generated operands and cones; non-trivial = the call returned a circuit')
     cases = []
     runs = []
